@@ -96,9 +96,30 @@ pub fn gen_item(r: &mut Rng, depth: u32, instrs: &[String]) -> Item {
 /// code tree whose root is a non-empty list and whose children are often lists themselves
 /// (CODE.* point arithmetic only shows on trees with nested lists before atoms)
 pub fn gen_tree(r: &mut Rng, depth: u32, instrs: &[String]) -> Item {
+    // half of the trees draw their atoms from a tiny alphabet, so that the same item occurs several times
+    // (first match vs later match, inside a sublist vs as a direct element)
+    let small = r.chance(1, 2);
+    gen_tree_with(r, depth, instrs, small)
+}
+fn gen_tree_with(r: &mut Rng, depth: u32, instrs: &[String], small: bool) -> Item {
     let n = 1 + r.below(4);
     let v: Vec<Item> = (0..n)
-        .map(|_| if depth > 1 && r.chance(2, 5) { gen_tree(r, depth - 1, instrs) } else if r.chance(1, 12) { Item::list(vec![]) } else { gen_atom(r, instrs) })
+        .map(|_| {
+            if depth > 1 && r.chance(2, 5) {
+                gen_tree_with(r, depth - 1, instrs, small)
+            } else if r.chance(1, 12) {
+                Item::list(vec![])
+            } else if small {
+                match r.below(5) {
+                    0 | 1 => Item::int(1 + r.below(2) as i32),
+                    2 => Item::name("a".to_string()),
+                    3 => Item::bool(true),
+                    _ => Item::list(vec![Item::int(1)]),
+                }
+            } else {
+                gen_atom(r, instrs)
+            }
+        })
         .collect();
     Item::list(v)
 }
